@@ -42,7 +42,8 @@ Rewrite rules (each application is counted per function and reported in the evid
   R15 `//@stmts file | container | fn | from "a" | to "b"`: a contiguous statement range of a function body
       (from the statement containing anchor a through the statement containing anchor b) is emitted verbatim
       inside a wrapper function whose header, parameters and return expression are written in the template;
-      the variables the range reads become the wrapper's parameters
+      the variables the range reads become the wrapper's parameters. Variant `| loop N body`: the range is the
+      whole body of the function's N-th loop (textual order); the loop header is recorded, not emitted
   R14 `closure N params (a: T, b: T)`: type annotations are added to the un-annotated parameters of a closure
       (names must match the source exactly; the types are the ones rustc infers)
   R13 a `use crate::path::Name;` statement inside a function body is dropped (the unit is one module and
@@ -697,8 +698,10 @@ def process(template_path, repo, meta, twin=None):
             # //@stmts file | container | fn | from "anchor" | to "anchor"   ... sections ... //@end
             fields = [f.strip() for f in ms.group(1).split("|")]
             rel, container, name = fields[0], fields[1], fields[2]
-            fa = re.match(r'^from "(.*)"$', fields[3]).group(1)
-            ta = re.match(r'^to "(.*)"$', fields[4]).group(1)
+            lb = re.match(r'^loop (\d+) body$', fields[3])
+            if not lb:
+                fa = re.match(r'^from "(.*)"$', fields[3]).group(1)
+                ta = re.match(r'^to "(.*)"$', fields[4]).group(1)
             path = os.path.join(repo, rel)
             if path not in sources:
                 if not os.path.exists(path):
@@ -718,12 +721,21 @@ def process(template_path, repo, meta, twin=None):
             hs, o, c = S.find_fn(container, name)
             body = S.src[o:c + 1]
             bmask = code_mask(body)
-            ia = [x.start() for x in re.finditer(re.escape(fa), body) if bmask[x.start()]]
-            ib = [x.start() for x in re.finditer(re.escape(ta), body) if bmask[x.start()]]
-            if len(ia) != 1 or len(ib) != 1:
-                raise ExtractError("%s: statement-range anchors matched %d / %d times" % (name, len(ia), len(ib)))
-            s0, _ = stmt_bounds(body, bmask, ia[0])
-            _, e1 = stmt_bounds(body, bmask, ib[0])
+            if lb:
+                # the whole body of loop N (textual ordinal) of the function
+                lh = loop_headers(body, bmask)
+                k = int(lb.group(1))
+                if k >= len(lh):
+                    raise ExtractError("%s: loop %d not found (function has %d loops)" % (name, k, len(lh)))
+                s0, e1 = lh[k][1] + 1, lh[k][2]
+                fa, ta = "loop %d body" % k, norm(body[lh[k][0]:lh[k][1]])
+            else:
+                ia = [x.start() for x in re.finditer(re.escape(fa), body) if bmask[x.start()]]
+                ib = [x.start() for x in re.finditer(re.escape(ta), body) if bmask[x.start()]]
+                if len(ia) != 1 or len(ib) != 1:
+                    raise ExtractError("%s: statement-range anchors matched %d / %d times" % (name, len(ia), len(ib)))
+                s0, _ = stmt_bounds(body, bmask, ia[0])
+                _, e1 = stmt_bounds(body, bmask, ib[0])
             if e1 <= s0:
                 raise ExtractError("%s: empty statement range" % name)
             frag = "{" + body[s0:e1] + "}"
